@@ -128,7 +128,7 @@ func URLToString(URL *url.URL) string {
 		// Do nothing. We don't want to encode the URL for signature purposes. :(
 		break
 	default:
-		URL.RawQuery = encodeQuery(URL.Query())
+		URL.RawQuery = encodeQuery(URL.RawQuery)
 	}
 
 	URL.Host, err = idna.ToASCII(URL.Host)
@@ -153,31 +153,38 @@ func URLToString(URL *url.URL) string {
 	return URL.String()
 }
 
-// Encode encodes the values into “URL encoded” form
-// from: https://cs.opensource.google/go/go/+/refs/tags/go1.23.1:src/net/url/url.go;l=1002
-// REASON: it has been modified to not sort
-func encodeQuery(v url.Values) string {
-	if len(v) == 0 {
-		return ""
-	}
-
+// encodeQuery re-encodes a raw query string into "URL encoded" form, parameter by
+// parameter and in the order of the source. It accepts and drops exactly what
+// url.ParseQuery accepts and drops (empty parameters, parameters containing a
+// semicolon or an invalid percent-escape) and escapes like url.Values.Encode,
+// but unlike them it goes through no map: neither the order nor the multiplicity
+// of the parameters changes, and the same query always gives the same string.
+func encodeQuery(rawQuery string) string {
 	var buf strings.Builder
 
-	first := true
-
-	for k, vs := range v {
-		keyEscaped := url.QueryEscape(k)
-		for _, v := range vs {
-			if !first {
-				buf.WriteByte('&')
-			}
-
-			first = false
-
-			buf.WriteString(keyEscaped)
-			buf.WriteByte('=')
-			buf.WriteString(url.QueryEscape(v))
+	for rawQuery != "" {
+		var param string
+		param, rawQuery, _ = strings.Cut(rawQuery, "&")
+		if param == "" || strings.Contains(param, ";") {
+			continue
 		}
+
+		rawKey, rawValue, _ := strings.Cut(param, "=")
+		key, err := url.QueryUnescape(rawKey)
+		if err != nil {
+			continue
+		}
+		value, err := url.QueryUnescape(rawValue)
+		if err != nil {
+			continue
+		}
+
+		if buf.Len() > 0 {
+			buf.WriteByte('&')
+		}
+		buf.WriteString(url.QueryEscape(key))
+		buf.WriteByte('=')
+		buf.WriteString(url.QueryEscape(value))
 	}
 
 	return buf.String()
